@@ -1,6 +1,6 @@
 (* C10 — main safety theorem (held packs) and the recover step of the next prune. *)
 From Verif.Base Require Import Tactics.
-From Verif.C10 Require Import Model ProofsBase ProofsView ProofsFresh ProofsSafe.
+From Verif.C10 Require Import Extracted Model ProofsBase ProofsView ProofsFresh ProofsSafe.
 Local Open Scope nat_scope.
 
 Lemma SAFE_init kd : SAFE kd init.
@@ -38,6 +38,10 @@ Proof.
   destruct X as [_ [K _ _ _ _ _ _]]. apply (K q p Hq). unfold Del. destruct Hp as [-> | ->]; exact Hd.
 Qed.
 
+(* the expiry test of the source (>= or >) implies expiry in the sense of the model *)
+Lemma expired_le kd T tm : expired kd T tm = true -> tm + kd <= T.
+Proof. unfold expired. destruct expiry_nonstrict; intro H; [apply Nat.leb_le in H|apply Nat.ltb_lt in H]; lia. Qed.
+
 (* ---- the next prune: what a valid plan guarantees *)
 Lemma plan_owns_used_lemma kd T v used existing asg rw b :
   plan_ok kd T v used existing asg rw = true -> In b used ->
@@ -59,7 +63,7 @@ Proof.
   apply andb_true_iff in H. destruct H as [H _]. apply andb_true_iff in H. destruct H as [H _].
   apply andb_true_iff in H. destruct H as [_ H]. rewrite forallb_forall in H. specialize (H x Hx). cbv beta zeta in H.
   destruct x as [i [[p bl] tm]]. simpl in *. rewrite Hs in H.
-  apply andb_true_iff in H. destruct H as [H _]. apply Nat.leb_le in H. exact H.
+  apply andb_true_iff in H. destruct H as [H _]. apply expired_le in H. exact H.
 Qed.
 
 Lemma plan_marked_needed_lemma kd T v used existing asg rw x :
